@@ -2,6 +2,7 @@ package props
 
 import (
 	"fmt"
+	"go/token"
 	"go/types"
 	"sort"
 	"strings"
@@ -21,7 +22,7 @@ import (
 // (vectorInnPrdtSumNoRed), each product classified by which extension batch of the role its vector comes
 // from, and where the seed of the coefficient stream comes from.
 func C15chi(p *load.Program, run *report.Run) {
-	run.Rule("chi-stream-agreement", "sender and receiver seed the coefficient stream with the value the receiver sent, and consume it in the same order: the coefficients drawn for the rows of the first extension batch multiply those rows, the ones drawn afterwards multiply the rows of the check batch (helpers of the module are followed; the stride of the draws is irrelevant, the stream is sequential)")
+	run.Rule("chi-stream-agreement", "sender and receiver seed the coefficient stream with one value that travels between them (one side sends it, the other receives it), and consume it in the same order: the coefficients drawn for the rows of the first extension batch multiply those rows, the ones drawn afterwards multiply the rows of the check batch (helpers of the module are followed; the stride of the draws is irrelevant, the stream is sequential)")
 	fs, e1 := p.Method("ot", "IKNPSender", "Send")
 	fr, e2 := p.Method("ot", "IKNPReceiver", "Receive")
 	key := "ot.IKNPSender.Send/IKNPReceiver.Receive/chi"
@@ -155,26 +156,73 @@ func C15chi(p *load.Program, run *report.Run) {
 							events = append(events, event{at, "seed"})
 						}
 						if len(c.Call.Args) == 1 {
-							x := flow.NewXSlice(load.InModule)
-							for _, bd := range binds {
-								x.Enter(bd.callee, bd.call)
-							}
-							x.Add(c.Call.Args[0])
-							for in := range x.Set {
-								if ci, ok := in.(ssa.CallInstruction); ok && ci.Common().IsInvoke() {
-									switch ci.Common().Method.Name() {
-									case "ReceiveLabel", "SendLabel":
-										seedVia = ci.Common().Method.Name()
-									}
+							// where the seed comes from: the variable it is read from is filled by ReceiveLabel, or
+							// its value is what the role hands to SendLabel (parameters continue at the call sites)
+							var dir func(v ssa.Value, depth int) string
+							dir = func(v ssa.Value, depth int) string {
+								if depth > 4 {
+									return ""
 								}
-								// the seed value is also what is handed to SendLabel (by value)
-								if v, ok := in.(ssa.Value); ok && v.Referrers() != nil {
-									for _, r := range *v.Referrers() {
-										if ci, ok := r.(ssa.CallInstruction); ok && ci.Common().IsInvoke() && ci.Common().Method.Name() == "SendLabel" {
-											seedVia = "SendLabel"
+								sentBy := func(val ssa.Value) bool {
+									if val.Referrers() == nil {
+										return false
+									}
+									for _, r := range *val.Referrers() {
+										if ci, ok := r.(ssa.CallInstruction); ok && ci.Common().IsInvoke() && ci.Common().Method.Name() == "SendLabel" && len(ci.Common().Args) > 0 && ci.Common().Args[0] == val {
+											return true
 										}
 									}
+									return false
 								}
+								switch t := v.(type) {
+								case *ssa.Parameter:
+									for _, bd := range binds {
+										for i, prm := range bd.callee.Params {
+											if prm == t && i < len(bd.call.Common().Args) {
+												if d := dir(bd.call.Common().Args[i], depth+1); d != "" {
+													return d
+												}
+											}
+										}
+									}
+								case *ssa.UnOp:
+									if t.Op != token.MUL {
+										break
+									}
+									cell := t.X
+									if cell.Referrers() != nil {
+										for _, r := range *cell.Referrers() {
+											if ci, ok := r.(ssa.CallInstruction); ok && ci.Common().IsInvoke() && ci.Common().Method.Name() == "ReceiveLabel" && len(ci.Common().Args) > 0 && ci.Common().Args[0] == cell {
+												return "ReceiveLabel"
+											}
+										}
+										for _, r := range *cell.Referrers() {
+											if ld, ok := r.(*ssa.UnOp); ok && ld.Op == token.MUL && sentBy(ld) {
+												return "SendLabel"
+											}
+											if st, ok := r.(*ssa.Store); ok && st.Addr == cell {
+												if d := dir(st.Val, depth+1); d != "" {
+													return d
+												}
+											}
+										}
+									}
+								case *ssa.Extract:
+									if sentBy(t) {
+										return "SendLabel"
+									}
+								case *ssa.Call:
+									if sentBy(t) {
+										return "SendLabel"
+									}
+								}
+								if sentBy(v) {
+									return "SendLabel"
+								}
+								return ""
+							}
+							if d := dir(c.Call.Args[0], 0); d != "" {
+								seedVia = d
 							}
 						}
 						continue
@@ -252,7 +300,7 @@ func C15chi(p *load.Program, run *report.Run) {
 		return ""
 	}
 	switch {
-	case seedS != "ReceiveLabel" || seedR != "SendLabel":
+	case !((seedS == "ReceiveLabel" && seedR == "SendLabel") || (seedS == "SendLabel" && seedR == "ReceiveLabel")):
 		run.Violate("chi-stream-agreement", key, p.Rel(fs.Pos()), fmt.Sprintf("the stream is seeded from a value the sender got by %q and the receiver by %q: the two streams differ", seedS, seedR), nil)
 	case len(weighs(seqS)) == 0 || fmt.Sprint(weighs(seqS)) != fmt.Sprint(weighs(seqR)):
 		run.Violate("chi-stream-agreement", key, p.Rel(fs.Pos()), fmt.Sprintf("the sender's check runs %v, the receiver's %v: the coefficients do not weigh the same rows on both sides", seqS, seqR), nil)
